@@ -672,7 +672,7 @@ func c08RunInner(c c08Case) (res verifkit.Result) {
 	}
 
 	// ---- what the proxy wrote
-	tr := c08ParseTranscript(stream, c.Protocol, encOn, secret16)
+	tr := c08ParseTranscript(stream, c.Protocol, encOn, oddSecret, secret16)
 	ev.mu.Lock()
 	registered := ev.registered > 0 || ev.postLogin > 0
 	loginOnline := append([]bool(nil), ev.loginOnline...)
@@ -875,7 +875,12 @@ type c08Transcript struct {
 // including the EncryptionRequest are plaintext; if the client answered it with
 // a valid response (encOn) every later byte must be AES/CFB8 under secret.
 // Parsing stops at LoginSuccess: what follows belongs to later phases.
-func c08ParseTranscript(stream []byte, protocol int32, encOn bool, secret []byte) c08Transcript {
+//
+// opaqueTail: the client answered with an RSA-valid secret whose length is not
+// 16; the proxy may then run a cipher the reference cannot follow, so the bytes
+// after the EncryptionRequest are not interpreted at all (admission is then
+// judged through the registration evidence only).
+func c08ParseTranscript(stream []byte, protocol int32, encOn, opaqueTail bool, secret []byte) c08Transcript {
 	var tr c08Transcript
 	data := stream
 	encrypted := false
@@ -928,12 +933,12 @@ func c08ParseTranscript(stream []byte, protocol int32, encOn bool, secret []byte
 		}
 		return nil, false, nil
 	}
-	rest, sw, err := walk(data, &tr, encOn)
+	rest, sw, err := walk(data, &tr, encOn || opaqueTail)
 	if err != nil {
 		tr.err = err
 		return tr
 	}
-	if !sw || len(rest) == 0 {
+	if !sw || len(rest) == 0 || !encOn {
 		return tr
 	}
 	dec := make([]byte, len(rest))
